@@ -103,9 +103,17 @@ def run(chk):
         check_cases(chk, projs[k:k + 25000], "random-dag")
     if len(chk.distinct) < 1000:
         raise common.Broken("degenerate generator: too few cases reach the timestamp comparison")
+    # CLI level: what `gwf status` reports for targets whose cone has no live/failed/cancelled job, across histories with
+    # spec edits, rejected submissions, touch, clean, drains with tied time stamps (real CachedFilesystem, FileSpecHashes file)
+    import history_check as HC
+    rule, assume = chk.rule, chk.assumptions
+    HC.run_prop(chk, "C01", ["C01", "C01:sge", "C06", "C01", "C18", "C01:local", "C16", "C01:lsf"], 96 if chk.tier == "quick" else 1500, rule, assume, lambda r: True)
 
 
 def replay(chk, data):
     chk.rule = RULE
+    if "focus" in data["input"]:
+        import history_check as HC
+        return HC.replay_prop(chk, "C01", data, RULE)
     check_cases(chk, [data["input"]], "replay")
     return chk.finish()
